@@ -2,11 +2,10 @@ module verifharness
 
 go 1.18
 
-require github.com/zclconf/go-cty v0.0.0
-
 require (
-	github.com/apparentlymart/go-textseg/v15 v15.0.0 // indirect
-	golang.org/x/text v0.11.0 // indirect
+	github.com/apparentlymart/go-textseg/v15 v15.0.0
+	github.com/zclconf/go-cty v0.0.0
+	golang.org/x/text v0.11.0
 )
 
 replace github.com/zclconf/go-cty => /repo
